@@ -294,6 +294,10 @@ def _dtype_kw(kwargs, default):
             return 'bool'
         if n in ('builtins.object',):
             return 'obj'
+        if n in ('np.int8', 'np.int16', 'np.uint16', 'np.uint32', 'np.float16', 'np.half', 'np.short', 'np.byte'):
+            # integers are mathematical and floats are reals in this model (A2): a narrow element type is where that
+            # idealisation stops being harmless, so code that asks for one is left undecided, never proved
+            raise Unsupported('narrow element type %s: machine arithmetic is not modelled' % n)
     raise Unsupported('dtype %r' % (dt,))
 
 
@@ -345,6 +349,8 @@ def np_arange(ex, st, *args, **kw):
         raise Unsupported('arange with step')
     n = s_sub(hi, lo)
     n = ite(s_lt(n, 0), 0, n) if not is_conc_num(n) else max(n, 0)
+    if _dtype_kw(kw, 'int') == 'real':
+        return _new_buffer(st, ArrayVal((n,), lambda i: to_real(s_add(lo, i)), 'real'))
     return _new_buffer(st, ArrayVal((n,), lambda i: s_add(lo, i), 'int'))
 
 
